@@ -537,10 +537,27 @@ pub fn call_node<'db>(db: &'db dyn Vd, node: u8, arg: u8) -> Out<'db> {
     }
 }
 
+/// marks, in salsa's own totally ordered protocol trace, the span in which the body of a function
+/// with cycle recovery runs on this thread (local cancellation is deferred in that span)
+struct CycSpan(u64);
+impl CycSpan {
+    fn enter(node: u8) -> CycSpan {
+        let t = salsa::verif_hooks::current_thread_u64();
+        salsa::verif_hooks::trace(salsa::verif_hooks::TraceEvent::Raw("cyc-enter", t, node as u64, 0));
+        CycSpan(t)
+    }
+}
+impl Drop for CycSpan {
+    fn drop(&mut self) {
+        salsa::verif_hooks::trace(salsa::verif_hooks::TraceEvent::Raw("cyc-exit", self.0, 0, 0));
+    }
+}
+
 fn interp_node<'db>(db: &'db dyn Vd, node: u8, arg: u8) -> Out<'db> {
     let prog = db.ctx().prog.clone();
     let n = &prog.nodes[node as usize];
     let acc0 = if prog.lattice { 0 } else { arg as u32 % VMOD };
+    let _span = matches!(n.kind, Kind::Fix | Kind::FixJoin | Kind::Fall | Kind::Div).then(|| CycSpan::enter(node));
     interp(db, LKey::Node(node, arg), &n.body, acc0, vec![], vec![], n.ret_h)
 }
 
